@@ -597,7 +597,10 @@ def dec (o : Opts) : Nat → Bool → Ty → Bytes → Res (Val × Bytes)
       | .ok (none, r, _) => .ok (.nil, r)
       | .ok (some t', r, dt') =>
         (match dec o fuel dt' t' r with
-         | .ok (v, r') => if t' = .any then .ok (v, r') else .ok (.any t' v, r')
+         | .ok (v, r') =>
+           if t' = .any then .ok (v, r')                         -- decodeAny into the same interface slot
+           else if t' = .error ∧ v = .nil then .ok (.nil, r')    -- a nil error stored into an interface is a nil interface
+           else .ok (.any t' v, r')
          | .err => .err
          | .panic => .panic)
       | .err => .err
